@@ -47,6 +47,7 @@ def _java(args: list[str], cwd: Path, timeout: int, env: dict | None = None, hea
     cmd = ["java"] + gc + [f"-Xmx{heap}"] + (props or []) + ["-cp", JAR] + args
     e = dict(os.environ)
     e.pop("JAVA_TOOL_OPTIONS", None)
+    e.setdefault("PASS", "none")       # specs guard their generate/judge passes with IOEnv.PASS (TLC evaluates every constant at start-up)
     if env:
         e.update(env)
     t0 = time.time()
